@@ -80,6 +80,18 @@ func (c *Ctx) confirmLemmaFailures(results []lemmaResult, what func(id string) s
 		}
 		req := map[string]interface{}{"Op": "harness", "Harness": j.h, "Vec": j.f.Model}
 		out, err := c.Native.RunOnce(req, &resp, 60)
+		// a counterexample that depends on Go's (random) map iteration order is replayed until the native run takes
+		// that order too (bounded)
+		orderDependent := false
+		for k := range j.f.Model {
+			if strings.HasPrefix(k, "maporder_") || strings.HasPrefix(k, "perm_") {
+				orderDependent = true
+			}
+		}
+		for try := 0; orderDependent && try < 40 && err == nil && resp.HostPanic == "" && !containsString(resp.Failed, j.f.ID); try++ {
+			resp.Failed = nil
+			out, err = c.Native.RunOnce(req, &resp, 60)
+		}
 		mu.Lock()
 		c.replays++
 		mu.Unlock()
@@ -107,6 +119,15 @@ func (c *Ctx) confirmLemmaFailures(results []lemmaResult, what func(id string) s
 		c.AddViolation(Violation{Key: j.f.ID, What: what(j.f.ID) + fmt.Sprintf(" (witness %s)", modelString(j.f.Model)),
 			Replay: map[string]interface{}{"kind": "harness", "harness": j.h, "vec": j.f.Model, "assertion": j.f.ID, "msg": j.f.Msg}})
 	})
+}
+
+func containsString(l []string, s string) bool {
+	for _, x := range l {
+		if x == s {
+			return true
+		}
+	}
+	return false
 }
 
 func modelString(m gosx.Model) string {
